@@ -12,7 +12,7 @@ DRIVER = os.path.join(LEAN, ".lake", "build", "bin", "kdriver")
 KH = os.path.join(CARGO_TARGET, "debug", "kharness")
 EVID = os.path.join(ROOT, "evidence")
 REPLAYS = os.path.join(ROOT, "replays")
-REPO = "/repo"
+REPO = os.environ.get("KV_REPO", "/repo")   # KV_REPO: scratch worktree used when testing seeded changes
 
 ALLOWED_AXIOMS = {"propext", "Classical.choice", "Quot.sound"}
 FORBIDDEN = re.compile(r"\bsorry\b|\badmit\b|^\s*axiom\s|native_decide|bv_decide|implemented_by|\bunsafe\s|maxHeartbeats\s+0")
